@@ -55,7 +55,90 @@ fn wait_until<F: Fn() -> bool>(f: F, ms: u64) -> bool {
     f()
 }
 
+/// Probes for the static findings: does the queue ever hold more than its capacity; can emit block.
+fn probe(sc: &Value) -> Value {
+    let mut viol: Vec<Value> = vec![];
+    let kind = sc["kind"].as_str().unwrap_or("");
+    if kind == "queue-capacity" {
+        for c in sc["probe"].as_array().cloned().unwrap_or_default() {
+            let c = c.as_u64().unwrap_or(1) as usize;
+            let sh = Arc::new(Shared { entered: Mutex::new(vec![]), finished: AtomicUsize::new(0), dropped: AtomicBool::new(false), outcomes: Mutex::new(vec![]) });
+            let (tx, rx) = channel::<String>();
+            let q = QueuingMetricSink::with_capacity(GatedSink { sh: sh.clone(), gate: Mutex::new(rx) }, c);
+            let _ = q.emit("first:1|c");
+            let _ = wait_until(|| sh.entered.lock().unwrap().len() >= 1, 1500);
+            // the worker now sits in the wrapped sink: the queue itself is empty and must take exactly `c` more
+            let mut ok = 0;
+            for i in 0..(c + 20) {
+                if q.emit(&format!("m{}:1|c", i)).is_ok() {
+                    ok += 1;
+                }
+            }
+            if ok != c {
+                viol.push(json!({"prop": "C10", "clause": "channel-capacity", "detail": format!("capacity {}: the queue accepted {} metrics while the wrapped sink was blocked", c, ok)}));
+            }
+            for _ in 0..(c + 30) {
+                let _ = tx.send("ok".to_string());
+            }
+            std::mem::forget(tx);
+        }
+    } else if kind == "queue-blocking-emit" {
+        // two producers race for the last slot of a bounded queue whose wrapped sink never returns
+        for round in 0..200 {
+            let sh = Arc::new(Shared { entered: Mutex::new(vec![]), finished: AtomicUsize::new(0), dropped: AtomicBool::new(false), outcomes: Mutex::new(vec![]) });
+            let (tx, rx) = channel::<String>();
+            let q = QueuingMetricSink::with_capacity(GatedSink { sh: sh.clone(), gate: Mutex::new(rx) }, 1);
+            let _ = q.emit("first:1|c");
+            let _ = wait_until(|| sh.entered.lock().unwrap().len() >= 1, 1500);
+            let done = Arc::new(AtomicUsize::new(0));
+            let barrier = Arc::new(std::sync::Barrier::new(3));
+            let mut hs = vec![];
+            for t in 0..2 {
+                let (q2, d2, b2) = (q.clone(), done.clone(), barrier.clone());
+                hs.push(std::thread::spawn(move || {
+                    b2.wait();
+                    let _ = q2.emit(&format!("t{}:1|c", t));
+                    d2.fetch_add(1, Ordering::SeqCst);
+                }));
+            }
+            barrier.wait();
+            let returned = wait_until(|| done.load(Ordering::SeqCst) == 2, 1500);
+            for _ in 0..8 {
+                let _ = tx.send("ok".to_string());
+            }
+            std::mem::forget(tx);
+            if !returned {
+                viol.push(json!({"prop": "C10", "clause": "emit-never-blocks", "detail": format!("round {}: an emit did not return within 1.5 s while the wrapped sink was blocked and the queue full", round)}));
+                break;
+            }
+            for h in hs {
+                let _ = h.join();
+            }
+        }
+    } else if kind == "queue-stats" {
+        let sh = Arc::new(Shared { entered: Mutex::new(vec![]), finished: AtomicUsize::new(0), dropped: AtomicBool::new(false), outcomes: Mutex::new(vec![]) });
+        let (tx, rx) = channel::<String>();
+        let q = QueuingMetricSink::with_capacity(GatedSink { sh: sh.clone(), gate: Mutex::new(rx) }, 1);
+        for i in 0..6 {
+            let _ = q.emit(&format!("m{}:1|c", i));
+        }
+        let st = q.stats();
+        // the gated sink keeps the default (all-zero) stats: anything else was invented by the wrapper
+        if st.bytes_sent != 0 || st.packets_sent != 0 || st.bytes_dropped != 0 || st.packets_dropped != 0 {
+            viol.push(json!({"prop": "C14", "clause": "queuing-stats-delegates", "detail": format!("stats through the queuing sink are {:?} but the wrapped sink reports zeros", st)}));
+        }
+        for _ in 0..8 {
+            let _ = tx.send("ok".to_string());
+        }
+        std::mem::forget(tx);
+    }
+    json!({"violations": viol})
+}
+
 pub fn replay(sc: &Value) -> Value {
+    if sc["kind"].as_str() != Some("queue") {
+        return probe(sc);
+    }
     let sh = Arc::new(Shared { entered: Mutex::new(vec![]), finished: AtomicUsize::new(0), dropped: AtomicBool::new(false), outcomes: Mutex::new(vec![]) });
     let (tx, rx): (Sender<String>, Receiver<String>) = channel();
     let sink = GatedSink { sh: sh.clone(), gate: Mutex::new(rx) };
@@ -81,7 +164,7 @@ pub fn replay(sc: &Value) -> Value {
                 if handles.is_empty() {
                     return json!({"error": "emit without a live handle"});
                 }
-                let m = format!("m{}:1|c", nemit);
+                let m = st["text"].as_str().map(|x| x.to_string()).unwrap_or_else(|| format!("m{}:1|c", nemit));
                 nemit += 1;
                 let t = Instant::now();
                 let r = handles[0].emit(&m);
@@ -125,6 +208,13 @@ pub fn replay(sc: &Value) -> Value {
                 std::thread::sleep(Duration::from_millis(20));
             }
             _ => {}
+        }
+    }
+    // liveness probe: a live handle must still get a metric through (a dead worker is otherwise unobservable)
+    if let Some(h) = handles.first() {
+        let m = "probe:1|c".to_string();
+        if h.emit(&m).is_ok() {
+            accepted.push(m);
         }
     }
     // let everything that is still queued through, successfully
